@@ -542,10 +542,20 @@ type jwksServer struct {
 	doc       atomic.Value // []byte
 	fail      atomic.Bool
 	downloads atomic.Int64
+	// hold: while set, a download waits on the channel (and reports its arrival first)
+	hold    atomic.Pointer[chan struct{}]
+	arrived chan struct{}
 }
 
 func (j *jwksServer) ServeHTTP(w http.ResponseWriter, r *http.Request) {
 	j.downloads.Add(1)
+	if h := j.hold.Load(); h != nil {
+		select {
+		case j.arrived <- struct{}{}:
+		default:
+		}
+		<-*h
+	}
 	if j.fail.Load() {
 		http.Error(w, "down", http.StatusServiceUnavailable)
 		return
@@ -672,6 +682,123 @@ func runExtraKeyset(run *ev.Run) {
 	j.fail.Store(false)
 }
 
+// runExtraKeysetCancel: (c5) one remote key set, a download held on the wire, callers that give up meanwhile.
+// Callers with an unknown kid start / join ONE download; the download is held at the endpoint; some callers' contexts are
+// cancelled while it is held (the starter, a joiner, both, in either order); the download is released; every caller has
+// returned; afterwards a token of a served key verifies. Whatever a caller that gave up got back is C13's business: here
+// the point is that giving up leaves the shared key set usable (no crash of the download goroutine, no race on the
+// in-flight record, nobody left waiting) - "one key set may be used from any number of goroutines at once".
+func runExtraKeysetCancel(run *ev.Run) {
+	j, toks := keysetFixture()
+	j.arrived = make(chan struct{}, 8)
+	host := "jwks-cancel.verif.test"
+	mux.Handle(host, j)
+	rounds := int(run.N(12, 120))
+	for round := 0; round < rounds; round++ {
+		run.Eval()
+		ks := rp.NewRemoteKeySet(&http.Client{Transport: mux}, "https://"+host+"/keys")
+		if err := verifyKS(ks, toks[1].Token); err != nil { // warm-up, free-running
+			run.HarnessBug("keyset(cancel) warm-up failed: " + err.Error())
+			return
+		}
+		waitNoDownload()
+		gate := make(chan struct{})
+		j.hold.Store(&gate)
+		n := 2 + round%3 // callers
+		type res struct {
+			err error
+			pi  bool
+		}
+		done := make([]chan res, n)
+		cancels := make([]context.CancelFunc, n)
+		// every caller presents a token whose kid nobody serves: a cache miss, one shared download
+		for i := 0; i < n; i++ {
+			done[i] = make(chan res, 1)
+		}
+		for i := 0; i < n; i++ {
+			ctx, cancel := context.WithCancel(context.Background())
+			cancels[i] = cancel
+			go func() {
+				var err error
+				bad := catchExtra(run, func() { _, err = ks.VerifySignature(ctx, mustParseJWS(unknownKidToken)) })
+				done[i] <- res{err, bad}
+			}()
+		}
+		select {
+		case <-j.arrived:
+		case <-time.After(20 * time.Second):
+			run.Inconclusive("keyset(cancel): no download arrived at the held endpoint")
+			close(gate)
+			j.hold.Store(nil)
+			return
+		}
+		// cancel a pattern of callers while the download is held: bit i of the pattern = caller i gives up
+		pattern := 1 + round%((1<<n)-1)
+		for i := 0; i < n; i++ {
+			if pattern&(1<<i) != 0 {
+				cancels[i]()
+			}
+		}
+		for i := 0; i < n; i++ {
+			if pattern&(1<<i) != 0 {
+				select {
+				case <-done[i]:
+				case <-time.After(20 * time.Second):
+					run.Count("extra_keyset_cancel", "a caller that gave up did not return while the download was held (C13's business)")
+				}
+			}
+		}
+		j.hold.Store(nil)
+		close(gate)
+		stuck := false
+		for i := 0; i < n; i++ {
+			if pattern&(1<<i) != 0 {
+				continue
+			}
+			select {
+			case <-done[i]:
+			case <-time.After(20 * time.Second):
+				stuck = true
+			}
+		}
+		for _, c := range cancels {
+			c()
+		}
+		if stuck {
+			run.Violation("C20:behaviour:remote-key-set:caller-left-waiting-after-another-gave-up", int64(extraBase+960_000+round),
+				fmt.Sprintf("%d callers waited for one held download; after callers %03b gave up and the download was released, a caller whose context is live never returned", n, pattern), map[string]any{"callers": n, "gave_up_pattern": pattern, "goroutines": clip(allStacks(), 4000)})
+			return
+		}
+		waitNoDownload()
+		if err := verifyKS(ks, toks[2].Token); err != nil {
+			run.Violation("C20:behaviour-changed-by-earlier-call:remote-key-set:after-cancelled-callers", int64(extraBase+960_000+round),
+				fmt.Sprintf("after callers %03b of %d gave up during a held download, a token of a served key no longer verifies (%v)", pattern, n, err), map[string]any{"callers": n, "gave_up_pattern": pattern})
+			return
+		}
+		run.Observed("extra:keyset-cancel-round-judged")
+		run.Distinct(fmt.Sprintf("keyset-cancel|n=%d|pattern=%03b", n, pattern))
+		run.Count("extra_keyset_cancel", fmt.Sprintf("callers=%d gave-up=%03b: all returned, key set usable", n, pattern))
+	}
+}
+
+// unknownKidToken: signed by a key nobody serves under a kid nobody serves (forces a download).
+var unknownKidToken = func() string {
+	k := keys.Get("c20-ks-nobody", jose.ES256)
+	s, err := jose.NewSigner(jose.SigningKey{Algorithm: jose.ES256, Key: &jose.JSONWebKey{Key: k.Priv, KeyID: "nobody"}}, &jose.SignerOptions{})
+	must(err, "ks signer")
+	o, err := s.Sign([]byte(`{"sub":"nobody"}`))
+	must(err, "ks sign")
+	c, err := o.CompactSerialize()
+	must(err, "ks serialize")
+	return c
+}()
+
+func mustParseJWS(tok string) *jose.JSONWebSignature {
+	jws, err := jose.ParseSigned(tok, []jose.SignatureAlgorithm{jose.RS256, jose.ES256, jose.EdDSA, jose.PS256})
+	must(err, "parse jws")
+	return jws
+}
+
 // waitNoDownload waits until no updateKeys goroutine of the remote key set is left (the cache is written by it).
 func waitNoDownload() {
 	for i := 0; i < 2000; i++ {
@@ -792,6 +919,7 @@ func runExtra(run *ev.Run) {
 	runExtraPairs(run)
 	runExtraArgs(run)
 	runExtraKeyset(run)
+	runExtraKeysetCancel(run)
 	runExtraVerifiers(run)
 	runWire(run)
 	runPreempt(run)
